@@ -244,6 +244,10 @@ for n in (0, 1, 2, 16, 17):
 from obl.vset_common import reuse_manifest_obls
 OBLIGATIONS += reuse_manifest_obls("g")
 
+# d: CURRENT always names a complete MANIFEST: set_current only after the new MANIFEST holds snapshot + edit and is synced
+from obl.vset_more import apply_obls
+OBLIGATIONS += [o for o in apply_obls("d") if "first" in o.name][:2]
+
 META = {
     "level": "model_checking",
     "level_text": "Bounded model checking (CBMC) of lcdb's own coding.h / version_edit.c / filename.c / util/env.c / "
